@@ -622,9 +622,8 @@ class Body:
         """several definitions reach a read that presupposes variant `want` (a downcast, the Continue arm of `?`):
         if the variant every definition produces is evident, only the matching ones can be the source"""
         cls = [self._def_class(d, hints) for d in whole]
-        if any(c is None for c in cls):
-            return whole
-        sel = [d for d, c in zip(whole, cls) if self._class_matches(c, want)]
+        # a definition whose variant is evident and different cannot be the source; one whose variant is not evident may
+        sel = [d for d, c in zip(whole, cls) if c is None or self._class_matches(c, want)]
         return sel if sel else whole
 
     def origin_place(self, pl, depth=0, want=None, tid=None):
@@ -649,7 +648,10 @@ class Body:
             # a user variable that is borrowed mutably or partially assigned is opaque; one that merely has several
             # whole definitions may still be resolved by the variant the read presupposes
             n_all = len([x for x in ds if x[0] == 'call' or not x[2]['pl']['p']])
-            if n_all <= 1 or len(whole) != 1 or l in self._mutb or any(x[0] == 'assign' and x[2]['pl']['p'] and x[2]['pl']['p'][0] != 'deref' for x in ds):
+            opaque = l in self._mutb or any(x[0] == 'assign' and x[2]['pl']['p'] and x[2]['pl']['p'][0] != 'deref' for x in ds)
+            if n_all > 1 and not opaque and len(whole) > 1:
+                return ('multi', l, proj)
+            if n_all <= 1 or len(whole) != 1 or opaque:
                 return ('place', l, proj)
         if len(whole) != 1:
             if not whole:
@@ -795,6 +797,12 @@ class Body:
         t = self.blocks[i]['term']
         assert t['t'] == 'switch'
         org = self.origin(t['discr'])
+        if org[0] == 'multi' and t['discr'].get('k') in ('copy', 'move') and not t['discr']['pl']['p']:
+            # the tested temporary also has definitions in private copies made by jump threading: the one that counts
+            # is the one in the switch's own block
+            own = [s for s in self.blocks[i]['stmts'] if s['s'] == 'assign' and s['pl']['l'] == t['discr']['pl']['l'] and not s['pl']['p']]
+            if own:
+                org = self.origin_from_def(('assign', i, own[-1]))
         dty = t.get('dty', '')
         if org[0] == 'discr':
             of = org[2] or {}
